@@ -87,7 +87,7 @@ class Block(Node):
                 # If the current node is also a media query, create a merged media
                 # query for each inner media query.
                 if self.name.tokens[0] == '@media':
-                    part_a = self.name.tokens[2:][0][0][0]
+                    part_a = self.name.tokens[2:][0]
                     part_b = mb.name.tokens[2:][0]
                     cond = [
                         '@media', ' ', [
